@@ -92,7 +92,7 @@ PROPS["C20"]["assumptions"] = PROPS["C20"]["assumptions"] + _BIN
 _FUZZ_RULE = "native Go fuzzing (coverage guided) of one message sent by a joined member that owns an entity, in a session with a witness, a subscribed component type and all modules, plus a bystander session; input = message type number and the raw bytes of all fields >= 3; state rebuilt every iteration; oracle: no panic, witness replica == server state, bystander session untouched, sender still a member or gone through the normal path, witness still served; quick tier replays the seed corpus (26 message types x 9 field blobs) and every saved crasher; non-trivial = inputs that reached new coverage (thorough) / replayed inputs (quick)"
 for _p in ("C08", "C04"):
     PROPS[_p]["parts"].append({"name": "fuzz", "gofuzz": "FuzzHandleMessage", "fuzztime": 240, "rule": _FUZZ_RULE, "test": "FuzzHandleMessage"})
-for _p in ("C01", "C02", "C06", "C07", "C08", "C09", "C10", "C11", "C12", "C13"):
+for _p in ("C01", "C02", "C06", "C07", "C08", "C09", "C10", "C11", "C12", "C13", "C16"):
     PROPS[_p]["parts"].append(dict(H("Test%sSched" % _p, "S", 1500, 4000, qs=2, ts=16, hang_is_violation=True), sched=True))
     PROPS[_p]["assumptions"] = PROPS[_p]["assumptions"] + ["part S: scheduling points exist only at the lock acquisitions of models/*.go and modules/*/state.go (sync import redirected to the overlay package vsync); interleavings inside a critical section are not explored; RWMutex is modelled with Go's writer preference; the driver has no clock: a frame is a step that dispatches the session's per-frame callbacks through an overlay hook, after which every connection handles what was released as part of its task; thorough tier enumerates all schedules with <= 2 preemptions for up to 120 generated blocks per shard (at most 2000 schedules each)"]
 PROPS["C06"]["parts"].append(H("TestC06Backpressure", "Wbp", 40, 400, qs=1, ts=8, hang_is_violation=True))
